@@ -131,6 +131,33 @@ func run(e *core.Env) {
 		}
 		e.Probe("session_with_earlier_traffic_shortly_below_the_wrap")
 	}
+	// ... or it has been through one or two key roll-overs already (in-order traffic across the
+	// 32-bit wrap, the counter moved forward by the harness in between).
+	if tp.Chance(1, 5) {
+		wraps := 1 + tp.Intn(2)
+		for wrp := 0; wrp < wraps; wrp++ {
+			(&state.EncryptionSessionTestHelper{EncryptionSession: sessAB.Encryption()}).ReglSetOut(0xFFFF_FFFF - uint32(2+tp.Intn(4)))
+			for i := 0; i < 10; i++ {
+				body := tp.Bytes(1 + tp.Intn(40))
+				f, err := A.Inst.Builder.NewFrameV1(A.IP, B.IP, frame.NetworkTraffic, nil, body, nil)
+				if err != nil {
+					e.Infra("prelude frame: %v", err)
+				}
+				if err := f.Seal(sessAB); err != nil {
+					e.Infra("prelude seal: %v", err)
+				}
+				d, _ := f.FrameDataWithMargins(0, 0)
+				w := append([]byte(nil), d...)
+				num := f.SequenceNum()
+				f.ReturnToPool()
+				got, err := unsealAt(B.Inst.Builder, sessBA, w)
+				if err != nil || !bytes.Equal(got, body) {
+					e.Fail("round-trip-fails/earlier-traffic-across-the-wrap", "regular frame number %d (roll-over %d of this session, frame %d) of earlier in-order traffic A->B does not round-trip: %v", num, wrp+1, i, err)
+				}
+			}
+		}
+		e.Probe("session_that_rolled_its_keys_before")
+	}
 
 	mt := msgTypes[tp.Intn(len(msgTypes))]
 	encrypted := mt.IsEncrypted()
